@@ -38,13 +38,14 @@ def view_cases(rng):
     class Selected(Exception):
         pass
     kinds = {x: rng.choice(['filter', 'sub', 'selected']) for x in bad}
+    nones = set(x for x in range(n) if x not in bad and rng.random() < 0.25)
 
     def f(x):
         if x == other:
             raise ValueError(x)
         if x in bad:
             raise {'filter': FilterException, 'sub': Sub, 'selected': Selected}[kinds[x]](x)
-        return x * 10
+        return None if x in nones else x * 10          # None is a legal example value
     w, b = rng.choice([(1, 1), (1, 3), (2, 2), (2, 4), (3, 3)])
     # the selection as the API accepts it: True (= FilterException), one class, a tuple of classes
     sel = rng.choice([True, FilterException, (FilterException,), (KeyError, FilterException), Selected, (Selected, KeyError),
@@ -61,7 +62,7 @@ def view_cases(rng):
                 continue
             want_err = 'FilterException' if kinds[x] in ('filter', 'sub') else 'Selected'
             break
-        want_vals.append(x * 10)
+        want_vals.append(None if x in nones else x * 10)
     keyed = rng.random() < 0.4
     src = {f'k{j}': j for j in range(n)} if keyed else list(range(n))
 
